@@ -1000,6 +1000,10 @@ class _Builder:
         bound = self._bind(callee, t)
         if bound is None:
             return None
+        if any(isinstance(v_, tuple) and any(op(y_) == "call" for y_ in subterms(v_)) for v_ in bound.values()):
+            # arguments computed by calls are evaluated HERE, at the call site (under the handlers that cover it):
+            # keep the place visible to analyses that go by line (which exceptions can escape from where)
+            p.events.append(self.E("eval", line, t))
         if callee.qualname.endswith("#eager"):
             # what the generator yields now arrives through an intermediate list: rules that follow a value from
             # its source to where it is used (under which tests it was produced) do not see through that list
